@@ -8,6 +8,7 @@ import JanetModel.Spec.CallSite
 import JanetModel.Spec.FixedEmit
 import JanetModel.Spec.VariadicEmit
 import JanetModel.Spec.Emit
+import JanetModel.Spec.NilGuard
 
 /-!
 C15 - compiler specialisations of core functions preserve behaviour (theorems only).
@@ -870,6 +871,113 @@ theorem nil_condition_value (hnil : ∀ x, P.eqv P.nil x = P.isNil x ∧ P.eqv x
     binop P .equals P.nil x = M.pure (ofBool P (P.isNil x)) ∧ binop P .equals x P.nil = M.pure (ofBool P (P.isNil x)) ∧
     binop P .notEquals P.nil x = M.pure (ofBool P (!P.isNil x)) ∧ binop P .notEquals x P.nil = M.pure (ofBool P (!P.isNil x)) := by
   refine ⟨?_, ?_, ?_, ?_⟩ <;> simp [binop, binopK, kindOf, (hnil x).1, (hnil x).2]
+
+/-! ### condition guards of `if` / `while`: EVERY emission site (also the while loop recompiled as a closure), constant folding -/
+
+/-- ★ obligation on the rows regenerated from specials.c (symbolic execution of the skeletons of `janetc_if` / `janetc_while`, one row per
+    emission site and per list of heads `janetc_check_nil_form` stripped): the rows are exactly the expected (form, heads, site) - at most
+    ONE head is ever stripped, `while` has its guard at both sites - and each carries the opcode, offset argument and following
+    `JOP_RETURN_NIL` of the model `guardSel` -/
+theorem nil_guard_sites_ok :
+    nilGuardSites.map (fun g => (g.form, g.path, g.site)) = guardSiteKeys ∧ nilGuardSites.all guardSiteOk = true := by
+  decide +kernel
+
+/-- ★ the same for the predicate applied to a constant condition -/
+theorem nil_const_folds_ok : nilConstFolds.map (fun c => (c.form, c.path)) = constFoldKeys ∧ nilConstFolds.all constFoldOk = true := by
+  decide +kernel
+
+/-- the heads `EQ` / `NEQ` are the comparison rows of `optimizers[]` with the opcodes `condValue` uses -/
+theorem nil_head_rows_ok : headRowOk .eq = true ∧ headRowOk .neq = true := by decide +kernel
+
+/-- ★ every conditional jump `janetc_if` / `janetc_while` emit for a condition, at every site and for every stripped head, takes the branch
+    the UNSPECIALISED condition would take: with `v` the (pure) value of `(f nil x)` = `(f x nil)` computed by the head's comparison row
+    (`x` itself without a head), the `main` jump leaves exactly when `v` is falsy and the `iife` jump skips the `retn` exactly when `v` is
+    truthy - for every `x`, `false` included -/
+theorem guard_site_same_branch (hnil : ∀ x, P.eqv P.nil x = P.isNil x ∧ P.eqv x P.nil = P.isNil x) :
+    ∀ g ∈ nilGuardSites, ∃ t, pathTag g.path = some t ∧ isCondJump g.op = true ∧
+      (∀ h, t = some h → ∃ r ∈ optimizers, g.path = [r.tagName] ∧ ∃ op opim inv, r.handler = .compreduce op opim inv ∧
+        ∀ a b, binop P op a b = binop P h.op a b) ∧
+      ∀ x, ∃ v, condValue P t x = M.pure v ∧ condValueR P t x = M.pure v ∧
+        jumpTaken P g.op x = (if g.site = "main" then !P.truthy v else P.truthy v) := by
+  intro g hg
+  have hok := List.all_eq_true.mp nil_guard_sites_ok.2 g hg
+  have hrow : ∀ t, pathTag g.path = some t → ∀ h, t = some h → ∃ r ∈ optimizers, g.path = [r.tagName] ∧ ∃ op opim inv,
+      r.handler = .compreduce op opim inv ∧ ∀ a b, binop P op a b = binop P h.op a b := by
+    intro t ht h hth
+    subst hth
+    obtain ⟨r, hr, hn, rest⟩ := headRow_binop P h (by cases h; exact nil_head_rows_ok.1; exact nil_head_rows_ok.2)
+    refine ⟨r, hr, ?_, rest⟩
+    rcases pathTag_cases g.path (some h) ht with ⟨_, hc⟩ | ⟨n, k, hp, hof, hk⟩
+    · cases hc
+    · cases hk
+      rw [hp, hn, ofName_name n h hof]
+      cases h <;> rfl
+  by_cases hm : g.site = "main"
+  · obtain ⟨t, ht, hop, _⟩ := guardSiteOk_main g hok hm
+    refine ⟨t, ht, ?_, hrow t ht, fun x => ?_⟩
+    · rw [hop]; exact (guardSel_sound P t P.nil).2.2.1
+    · obtain ⟨v, h1, h2, h3⟩ := condValue_truthy P hnil t x
+      exact ⟨v, h1, h2, by rw [hop, (guardSel_sound P t x).1, h3, if_pos hm]⟩
+  · obtain ⟨t, ht, _, _, hop, _, _⟩ := guardSiteOk_iife g hok hm
+    refine ⟨t, ht, ?_, hrow t ht, fun x => ?_⟩
+    · rw [hop]; exact (guardSel_sound P t P.nil).2.2.2
+    · obtain ⟨v, h1, h2, h3⟩ := condValue_truthy P hnil t x
+      exact ⟨v, h1, h2, by rw [hop, (guardSel_sound P t x).2.1, h3, if_neg hm]⟩
+
+/-- ★ the guard of a while loop that was recompiled as a tail-recursive closure (the body creates a closure), as emitted: for every regenerated
+    `iife` row, code `jmp<op> x +offset; <nextOp>` at `pc` returns nil when the unspecialised condition is false of `x` and enters the loop
+    body at `pc + 2` with unchanged slots when it is true -/
+theorem while_iife_guard_computes : ∀ g ∈ nilGuardSites, g.site = "iife" → ∃ t, pathTag g.path = some t ∧
+    ∀ (code : List Instr) (pc : Nat) (i j : Instr), code[pc]? = some i → code[pc + 1]? = some j → i.op = g.op → i.ES = g.offset →
+      some j.op = g.nextOp → ∀ (s : List P.V) (w : P.W) (fuel : Nat),
+      exec P code (fuel + 2) ⟨s, pc⟩ w =
+        if condHolds P t (s.getD i.A P.nil) then exec P code (fuel + 1) ⟨s, pc + 2⟩ w else some (.ok P.nil, w) := by
+  intro g hg hsite
+  have hok := List.all_eq_true.mp nil_guard_sites_ok.2 g hg
+  obtain ⟨t, ht, _, _, hgop, hgoff, hgnx⟩ := guardSiteOk_iife g hok (by rw [hsite]; decide)
+  refine ⟨t, ht, fun code pc i j hi hj hop hoff hnx s w fuel => ?_⟩
+  refine iife_guard_exec P t code pc i j hi hj (hop.trans hgop) ?_ ?_ s w fuel
+  · rw [hoff, hgoff]; rfl
+  · rw [hgnx] at hnx
+    exact Option.some.inj hnx
+
+/-- ★ constant folding: for every regenerated row, the predicate of the constant condition `c` under which `janetc_if` compiles only the
+    else-body / `janetc_while` compiles nothing holds exactly when the unspecialised condition value is falsy - the decision taken at compile
+    time is the one the `main` jump of the same (form, heads) takes at run time -/
+theorem const_fold_same_branch (hnil : ∀ x, P.eqv P.nil x = P.isNil x ∧ P.eqv x P.nil = P.isNil x) :
+    ∀ c ∈ nilConstFolds, ∃ t, pathTag c.path = some t ∧ ∀ x, ∃ v, condValue P t x = M.pure v ∧ condValueR P t x = M.pure v ∧
+      predHolds P c.pred x = some (!P.truthy v) ∧
+      ∀ g ∈ nilGuardSites, g.form = c.form → g.path = c.path → g.site = "main" → predHolds P c.pred x = some (jumpTaken P g.op x) := by
+  intro c hc
+  have hok := List.all_eq_true.mp nil_const_folds_ok.2 c hc
+  unfold constFoldOk at hok
+  split at hok
+  · cases hok
+  · rename_i t ht
+    simp only [Bool.and_eq_true, beq_iff_eq] at hok
+    refine ⟨t, ht, fun x => ?_⟩
+    obtain ⟨v, h1, h2, h3⟩ := condValue_truthy P hnil t x
+    refine ⟨v, h1, h2, by rw [hok.1, (guardSel_fold_sound P t x).1, h3], fun g hg _ hp hs => ?_⟩
+    obtain ⟨t', ht', hop', _⟩ := guardSiteOk_main g (List.all_eq_true.mp nil_guard_sites_ok.2 g hg) hs
+    rw [hp, ht] at ht'
+    cases ht'
+    rw [hok.1, hop']
+    exact (guardSel_fold_sound P t x).2
+
+/-- non-vacuity: in the driver's universe `false` is not nil, so the `(not= nil x)` guard of the closure-recompiled loop must be
+    `JOP_JUMP_IF_NOT_NIL` - with `JOP_JUMP_IF` (truthiness) the loop would end at a stored `false`; and the rows do contain that site -/
+example : (⟨"while", ["NEQ"], "iife", .jumpIfNotNil, 2, some .returnNil⟩ : GuardSite) ∈ nilGuardSites ∧
+    jumpTaken DP .jumpIfNotNil (DV.bool false) = true ∧ jumpTaken DP .jumpIf (DV.bool false) = false ∧
+    condHolds DP (some .neq) (DV.bool false) = true ∧
+    guardSiteOk ⟨"while", ["NEQ"], "iife", .jumpIf, 2, some .returnNil⟩ = false ∧
+    guardSiteOk ⟨"while", ["EQ", "NEQ"], "main", .jumpIfNil, 0, none⟩ = false := by
+  refine ⟨by decide, rfl, rfl, rfl, by decide, by decide⟩
+
+/-- non-vacuity of `while_iife_guard_computes`: the emitted guard on a frame whose slot 0 holds `false` enters the body (here: returns
+    slot 1), on nil it returns nil -/
+example : exec DP [mkAI .jumpIfNotNil 0 2, mkD .returnNil 0, mkD .return 1] 3 ⟨[DV.bool false, DV.int 7], 0⟩ [] = some (Except.ok (DV.int 7), []) ∧
+    exec DP [mkAI .jumpIfNotNil 0 2, mkD .returnNil 0, mkD .return 1] 3 ⟨[DV.nil, DV.int 7], 0⟩ [] = some (Except.ok DV.nil, []) := by
+  exact ⟨rfl, rfl⟩
 
 /-! ### clean-up passes (statements proved in Bytecode/VMPasses.lean) -/
 
